@@ -1,6 +1,6 @@
 (* Witnesses (vm_compute on the faithful model) of the merge laws that fail for kyaml merge3 as it is;
    each is confirmed on the implementation by the oracles of harness/c15.go (findings.d/C15.txt). *)
-From KV Require Import Yaml.Merge3 Yaml.Merge2Frame.
+From KV Require Import Yaml.Merge3 Yaml.Merge2Frame Yaml.Merge3Proofs.
 Local Open Scope list_scope.
 Local Open Scope string_scope.
 
@@ -57,3 +57,18 @@ Example local_kept_example :
   exists r, merge3 schemaless kustomize_opts (fun _ => false) (Some nv_l) (Some nv_o) (Some nv_o) = Ok (Some r) /\
             getp ["m"; "y"] r = Some (Scalar TStr SPlain "new") /\ getp ["a"] r = Some (Scalar TInt SPlain "2").
 Proof. eexists. split; [vm_compute; reflexivity|]. split; reflexivity. Qed.
+
+(* non-vacuity of merge3_updated_arrives: a field changed, a field added and a mapping added upstream *)
+Definition nu_o := Map [("a", i1); ("m", Map [("x", i1)])].
+Definition nu_u := Map [("a", Scalar TInt SPlain "2"); ("m", Map [("x", i1); ("y", Scalar TStr SPlain "new")]);
+                        ("n", Map [("z", Scalar TBool SPlain "true")])].
+Example updated_arrives_example :
+  exists r, merge3 schemaless kustomize_opts (fun _ => false) (Some nu_o) (Some nu_o) (Some nu_u) = Ok (Some r) /\
+            ok_along (Some nu_o) ["n"; "z"] /\ ok_along (Some nu_o) ["a"] /\
+            getp ["a"] r = Some (Scalar TInt SPlain "2") /\
+            getp ["m"; "y"] r = Some (Scalar TStr SPlain "new") /\
+            getp ["n"; "z"] r = Some (Scalar TBool SPlain "true").
+Proof.
+  eexists. split; [vm_compute; reflexivity|].
+  cbn. repeat split; try (repeat constructor; cbn; intuition congruence).
+Qed.
